@@ -8,40 +8,107 @@ Open Scope list_scope.
 
 Lemma dumped_verb2 : forall n, dumped (log_verbose n [OVerb] ++ log_verbose n [OVerb]) = [].
 Proof. intros. rewrite dumped_app, dumped_log_verbose. reflexivity. Qed.
-
-Lemma set_write_delivers : forall a n file fl d,
-  r_status (set_write a n file fl d) = Exit 0 /\
-  exists j, delivered (set_write a n file fl d) = [(j, [d])].
+Lemma dumped_verbs : forall n k, dumped (log_verbose n (repeat OVerb k)) = [].
 Proof.
-  intros. unfold set_write, delivered. destruct (is_dash file); simpl.
-  - split; [reflexivity|]. eexists.
+  intros. unfold log_verbose. destruct (_ && _); [|reflexivity].
+  induction k; simpl; auto.
+Qed.
+
+Lemma set_write_delivers : forall a n file fl e yd jd d,
+  (r_status (set_write a n file fl e yd jd d) = Exit 0 /\
+   exists j, delivered (set_write a n file fl e yd jd d) =
+               [(j, [if negb fl && negb (sa_is_json_ext a) then yd else jd])]) \/
+  (r_status (set_write a n file fl e yd jd d) <> Exit 0 /\ delivered (set_write a n file fl e yd jd d) = []).
+Proof.
+  intros. unfold set_write, delivered.
+  destruct (if negb fl && negb (sa_is_json_ext a) then e else None) as [c|]; destruct (is_dash file); simpl.
+  - right. split; [discriminate|].
     destruct (sa_backup a); simpl; rewrite ?dumped_app, ?dumped_log_verbose; reflexivity.
-  - split; [reflexivity|]. eexists.
+  - right. split; [discriminate|].
+    destruct (sa_backup a); simpl; rewrite ?dumped_app, ?dumped_log_verbose; reflexivity.
+  - left. split; [reflexivity|]. eexists.
+    destruct (sa_backup a); simpl; rewrite ?dumped_app, ?dumped_log_verbose; reflexivity.
+  - left. split; [reflexivity|]. eexists.
     destruct (sa_backup a); simpl; rewrite ?dumped_app, ?dumped_log_verbose; simpl; reflexivity.
 Qed.
 
-Ltac fin V :=
-  left;
-  match goal with
-  | |- context [set_write ?a ?n ?file ?f ?d] =>
-      let S := fresh "S" in let j := fresh "j" in let D := fresh "D" in
-      destruct (set_write_delivers a n file f d) as [S [j D]];
-      split; [exact S | exists j; unfold delivered in *; cbn [r_out r_fx]; rewrite dumped_app, V; exact D]
-  end.
+(* the YAML dumper raises: never exit 0, nothing delivered, and a file target gets its original bytes back *)
+Lemma set_write_dump_fails : forall a n file fl c yd jd d,
+  negb fl && negb (sa_is_json_ext a) = true ->
+  r_status (set_write a n file fl (Some c) yd jd d) = Uncaught (UCrash c) /\
+  delivered (set_write a n file fl (Some c) yd jd d) = [] /\
+  (is_dash file = false -> r_fx (set_write a n file fl (Some c) yd jd d) = [ERestore]).
+Proof.
+  intros a n file fl c yd jd d Y. unfold set_write, delivered. rewrite Y.
+  destruct (is_dash file); simpl.
+  - split; [reflexivity|]. split; [|discriminate].
+    destruct (sa_backup a); simpl; rewrite ?dumped_app, ?dumped_log_verbose; reflexivity.
+  - split; [reflexivity|]. split; [|reflexivity].
+    destruct (sa_backup a); simpl; rewrite ?dumped_app, ?dumped_log_verbose; reflexivity.
+Qed.
 
 Section SetProofs.
   Variable built : lres nat.
   Variable saveto : nat -> lres nat.
   Variable change : nat -> change_res.
   Variable flow : nat -> bool.
+  Variable dump_fail : nat -> option string.
+  Variable jsonview : nat -> nat.
+  Variable yamlview : nat -> nat.
+  Variable change_verb : nat -> nat.
+
+  (* write_output_document after [out] (which holds no dump): one document or none *)
+  Lemma set_finish_delivers : forall a n file out d,
+    dumped out = [] ->
+    (r_status (set_finish flow dump_fail jsonview yamlview a n file out d) = Exit 0 /\
+     exists j, delivered (set_finish flow dump_fail jsonview yamlview a n file out d) = [(j, [set_written a flow yamlview jsonview d])]) \/
+    (r_status (set_finish flow dump_fail jsonview yamlview a n file out d) <> Exit 0 /\
+     delivered (set_finish flow dump_fail jsonview yamlview a n file out d) = []).
+  Proof.
+    intros a n file out d O. unfold set_finish.
+    destruct (set_write_delivers a n file (flow d) (dump_fail d) (yamlview d) (jsonview d) d) as [[S [j D]]|[S D]].
+    - left. split; [exact S|]. exists j. unfold delivered in *. cbn [r_out r_fx]. rewrite dumped_app, O. exact D.
+    - right. split; [exact S|]. unfold delivered in *. cbn [r_out r_fx]. rewrite dumped_app, O. exact D.
+  Qed.
+
+  Definition change_post (a : set_args) (d1 : nat) : nat :=
+    match set_change_kind a with
+    | ChNothing => d1
+    | _ => match change d1 with ChOk d2 => d2 | ChYpe _ d2 => d2 | _ => d1 end
+    end.
+
+  Lemma set_change_tail_delivers : forall a n file out2 d1,
+    dumped out2 = [] ->
+    (r_status (set_change_tail change flow dump_fail jsonview yamlview change_verb a n file out2 d1) = Exit 0 /\
+     exists j, delivered (set_change_tail change flow dump_fail jsonview yamlview change_verb a n file out2 d1) =
+               [(j, [set_written a flow yamlview jsonview (change_post a d1)])]) \/
+    (r_status (set_change_tail change flow dump_fail jsonview yamlview change_verb a n file out2 d1) <> Exit 0 /\
+     delivered (set_change_tail change flow dump_fail jsonview yamlview change_verb a n file out2 d1) = []).
+  Proof.
+    intros a n file out2 d1 O. unfold set_change_tail, change_post.
+    assert (O3 : dumped (out2 ++ log_verbose n (repeat OVerb (change_verb d1))) = [])
+      by (rewrite dumped_app, O, dumped_verbs; reflexivity).
+    assert (Fail : forall s out, s <> Exit 0 -> dumped out = [] ->
+              (r_status (mkrun s out []) = Exit 0 /\
+               exists j, delivered (mkrun s out []) = [(j, [set_written a flow yamlview jsonview d1])]) \/
+              (r_status (mkrun s out []) <> Exit 0 /\ delivered (mkrun s out []) = [])).
+    { intros s out N D. right. split; [exact N|]. unfold delivered. cbn [r_out r_fx]. rewrite D. reflexivity. }
+    destruct (set_change_kind a) eqn:K; cbv beta iota zeta;
+      try (apply set_finish_delivers; exact O);
+      (destruct (change d1) as [d2|e d2| |u] eqn:CH; cbn [set_after_change]; cbv beta iota;
+       try destruct e; try destruct u;
+       first [ apply set_finish_delivers; exact O3
+             | right; split; [discriminate | unfold delivered; cbn [r_out r_fx]; rewrite O3; reflexivity] ]).
+  Qed.
 
   (* the tail of main(): either it exits 0 having delivered exactly the library's post-state,
      or it fails having delivered nothing *)
   Lemma set_apply_delivers : forall a n file d0 ns,
-    (r_status (set_apply saveto change flow a n file d0 ns) = Exit 0 /\
-     exists j, delivered (set_apply saveto change flow a n file d0 ns) = [(j, [set_post a saveto change d0])]) \/
-    (r_status (set_apply saveto change flow a n file d0 ns) <> Exit 0 /\
-     delivered (set_apply saveto change flow a n file d0 ns) = []).
+    (r_status (set_apply saveto change flow dump_fail jsonview yamlview change_verb a n file d0 ns) = Exit 0 /\
+     exists j, delivered (set_apply saveto change flow dump_fail jsonview yamlview change_verb a n file d0 ns) =
+               [(j, [set_written a flow yamlview jsonview (set_post a saveto change d0)])]) \/
+    (r_status (set_apply saveto change flow dump_fail jsonview yamlview change_verb a n file d0 ns) <> Exit 0 /\
+     delivered (set_apply saveto change flow dump_fail jsonview yamlview change_verb a n file d0 ns) = []).
   Proof.
     intros a n file d0 ns. unfold set_apply, set_post.
     destruct (if sa_check a then set_check a ns else CheckPass) as [|s h] eqn:CK.
@@ -61,36 +128,26 @@ Section SetProofs.
       { right. unfold delivered; simpl. rewrite dumped_log_verbose. split; [discriminate|reflexivity]. }
       destruct (saveto d0) as [d1|u] eqn:SV.
       2:{ right. destruct u; unfold delivered; simpl; rewrite dumped_log_verbose; split; try discriminate; reflexivity. }
-      destruct (set_change_kind a) eqn:K; cbv beta iota;
-        try (fin V2);
-        (destruct (change d1) as [d2|e d2| |u] eqn:CH; cbn [set_after_change]; cbv beta iota;
-         try destruct e; try destruct u;
-         first [ fin V2
-               | right; split; [discriminate | unfold delivered; cbn [r_out r_fx]; rewrite V2; reflexivity] ]).
-    - destruct (set_change_kind a) eqn:K; cbv beta iota;
-        try (fin V1);
-        (destruct (change d0) as [d2|e d2| |u] eqn:CH; cbn [set_after_change]; cbv beta iota;
-         try destruct e; try destruct u;
-         first [ fin V1
-               | right; split; [discriminate | unfold delivered; cbn [r_out r_fx]; rewrite V1; reflexivity] ]).
+      apply (set_change_tail_delivers a n file _ d1 V2).
+    - apply (set_change_tail_delivers a n file _ d0 V1).
   Qed.
 
   (* yaml-set: exit 0 => exactly one document is delivered (to the file, or to STDOUT when the
      document came from STDIN) and it is the library's post-state of the loaded (or, for an
      empty file, freshly built) document; any other ending delivers nothing *)
-  Lemma set_file : forall a tty valfile_ok load gather,
-    (r_status (cli_set_main built saveto change flow a tty valfile_ok load gather) = Exit 0 /\
+  Lemma set_file : forall a tty valfile_err load gather,
+    (r_status (cli_set_main built saveto change flow dump_fail jsonview yamlview change_verb a tty valfile_err load gather) = Exit 0 /\
      exists d0 j,
        (get_yaml_data load = L1Ok (Some d0) \/ (get_yaml_data load = L1Ok None /\ built = LOk d0)) /\
-       delivered (cli_set_main built saveto change flow a tty valfile_ok load gather) =
-         [(j, [set_post a saveto change d0])]) \/
-    (r_status (cli_set_main built saveto change flow a tty valfile_ok load gather) <> Exit 0 /\
-     delivered (cli_set_main built saveto change flow a tty valfile_ok load gather) = []).
+       delivered (cli_set_main built saveto change flow dump_fail jsonview yamlview change_verb a tty valfile_err load gather) =
+         [(j, [set_written a flow yamlview jsonview (set_post a saveto change d0)])]) \/
+    (r_status (cli_set_main built saveto change flow dump_fail jsonview yamlview change_verb a tty valfile_err load gather) <> Exit 0 /\
+     delivered (cli_set_main built saveto change flow dump_fail jsonview yamlview change_verb a tty valfile_err load gather) = []).
   Proof.
-    intros a tty valfile_ok load gather. unfold cli_set_main.
+    intros a tty valfile_err load gather. unfold cli_set_main.
     destruct (negb (Nat.eqb (set_validate_errors a tty) 0)).
     { right. unfold delivered; simpl. rewrite dumped_hints. split; [discriminate|reflexivity]. }
-    destruct (negb (value_given a) && negb (sa_stdin a) && sa_valfile a && negb valfile_ok).
+    destruct (if negb (value_given a) && negb (sa_stdin a) && sa_valfile a then valfile_err else None).
     { right. split; [discriminate|reflexivity]. }
     destruct (negb (nonempty (sa_file a) || _)).
     { right. split; [discriminate|reflexivity]. }
@@ -99,11 +156,11 @@ Section SetProofs.
     2:{ right. split; [discriminate|reflexivity]. }
     assert (D0 : forall d0, (od = Some d0 \/ (od = None /\ built = LOk d0)) ->
                  forall ns n file,
-      (r_status (set_apply saveto change flow a n file d0 ns) = Exit 0 /\
+      (r_status (set_apply saveto change flow dump_fail jsonview yamlview change_verb a n file d0 ns) = Exit 0 /\
        exists d1 j, (L1Ok od = L1Ok (Some d1) \/ (L1Ok od = L1Ok None /\ built = LOk d1)) /\
-         delivered (set_apply saveto change flow a n file d0 ns) = [(j, [set_post a saveto change d1])]) \/
-      (r_status (set_apply saveto change flow a n file d0 ns) <> Exit 0 /\
-       delivered (set_apply saveto change flow a n file d0 ns) = [])).
+         delivered (set_apply saveto change flow dump_fail jsonview yamlview change_verb a n file d0 ns) = [(j, [set_written a flow yamlview jsonview (set_post a saveto change d1)])]) \/
+      (r_status (set_apply saveto change flow dump_fail jsonview yamlview change_verb a n file d0 ns) <> Exit 0 /\
+       delivered (set_apply saveto change flow dump_fail jsonview yamlview change_verb a n file d0 ns) = [])).
     { intros d0 H ns n file. destruct (set_apply_delivers a n file d0 ns) as [[S [j D]]|[S D]].
       - left. split; [exact S|]. exists d0, j. split; [|exact D].
         destruct H as [H|[H1 H2]]; [left; congruence|right; split; congruence].
@@ -126,9 +183,14 @@ Section SetProofs.
   (* a failed --check, or an unmatched path that must exist, ends the run with a non-zero status *)
   Lemma set_check_stops : forall a n file d0 ns s h,
     sa_check a = true -> set_check a ns = CheckStop s h ->
-    set_apply saveto change flow a n file d0 ns = mkrun s (hints h) [].
+    set_apply saveto change flow dump_fail jsonview yamlview change_verb a n file d0 ns = mkrun s (hints h) [].
   Proof. intros a n file d0 ns s h C K. unfold set_apply. rewrite C, K. reflexivity. Qed.
 End SetProofs.
+
+Lemma set_written_faithful : forall a flow yamlview jsonview d,
+  dump_faithful yamlview -> negb (flow d) && negb (sa_is_json_ext a) = true ->
+  set_written a flow yamlview jsonview d = d.
+Proof. intros a flow yv jv d F Y. unfold set_written. rewrite Y. apply F. Qed.
 
 (* ---------------- yaml-paths ---------------- *)
 
